@@ -114,8 +114,18 @@ struct ParameterTraits<cntgs::AlignAs<T, Alignment>>
             size = alignment_offset - offset + VALUE_BYTES;
             new_offset = offset + size;
         }
-        const auto padding_offset = detail::align_if<(TRAILING_ALIGNMENT < NextAlignment), NextAlignment>(new_offset);
-        return {new_offset, size, padding_offset - new_offset, (std::max)(alignment, ALIGNMENT)};
+        const auto new_alignment = (std::max)(alignment, ALIGNMENT);
+        std::size_t padding{};
+        if (new_alignment < NextAlignment)
+        {
+            // after a VaryingSize parameter the position is only known modulo new_alignment: reserve the worst case
+            padding = detail::align(new_offset, new_alignment) + NextAlignment - new_alignment - new_offset;
+        }
+        else
+        {
+            padding = detail::align_if<(TRAILING_ALIGNMENT < NextAlignment), NextAlignment>(new_offset) - new_offset;
+        }
+        return {new_offset, size, padding, new_alignment};
     }
 
     static auto data_begin(ConstReferenceType reference) noexcept
@@ -411,8 +421,18 @@ struct ParameterTraits<cntgs::FixedSize<cntgs::AlignAs<T, Alignment>>> : BaseCon
             size = alignment_offset - offset + value_size;
             new_offset = offset + size;
         }
-        const auto padding_offset = detail::align_if<(TRAILING_ALIGNMENT < NextAlignment), NextAlignment>(new_offset);
-        return {new_offset, size, padding_offset - new_offset, (std::max)(alignment, ALIGNMENT)};
+        const auto new_alignment = (std::max)(alignment, ALIGNMENT);
+        std::size_t padding{};
+        if (new_alignment < NextAlignment)
+        {
+            // after a VaryingSize parameter the position is only known modulo new_alignment: reserve the worst case
+            padding = detail::align(new_offset, new_alignment) + NextAlignment - new_alignment - new_offset;
+        }
+        else
+        {
+            padding = detail::align_if<(TRAILING_ALIGNMENT < NextAlignment), NextAlignment>(new_offset) - new_offset;
+        }
+        return {new_offset, size, padding, new_alignment};
     }
 
     static void copy(const cntgs::Span<std::add_const_t<T>>& source,
